@@ -10,7 +10,7 @@ process is registered, terminated and joined.  Not decided: schedule independenc
 import ast
 from typing import Dict, FrozenSet, List, Optional, Set, Tuple
 
-from ..core import AnalysisError, Loc, Report, Source, norm
+from ..core import IdiomNotRecognised, AnalysisError, Loc, Report, Source, norm
 from ..mediator_rules import check_run_loops
 from ..pyfront import Program, body_without_docstring, param_names, self_attr
 from ..guards import atoms, path_conditions
@@ -125,7 +125,7 @@ def check_parent_protocol(prog: Program, rep: Report) -> None:
                 and isinstance(n.value, ast.Attribute) and norm(n.value.value) == "EventHandlerState":
             state_attr = self_attr(n.targets[0].value)
     if state_attr is None:
-        raise AnalysisError("stage table of the multi-process mediator not found")
+        raise IdiomNotRecognised("stage table of the multi-process mediator not found")
     sp = mp.methods.get("_start_processes")
     start_attr = cont_attr = None
     if sp is not None:
@@ -149,7 +149,7 @@ def check_parent_protocol(prog: Program, rep: Report) -> None:
                         if a1 and a2:
                             start_attr, cont_attr = a1, a2
     if not (start_attr and cont_attr):
-        raise AnalysisError("start / continue event tables not identified from the Process arguments")
+        raise IdiomNotRecognised("start / continue event tables not identified from the Process arguments")
     # ---- abstract interpretation of the parent's pipe protocol ------------------------------------------------------------
     # For every pipe expression (the loop variable of a loop over pipes, or a looked-up pipe such as self._pipes[handler]) the
     # run loop is executed abstractly, path by path: the abstract state is (set of stages the worker may be in, operations
